@@ -124,3 +124,117 @@ def c05(tier):
 
 
 PROPS = {'C01': c01, 'C02': c02, 'C03': c03, 'C04': c04, 'C05': c05}
+
+
+def c07(tier):
+    chk = core.Check('C07', tier)
+    prof = profile_for(tier)
+    chk.assumptions = ASSUME_REGMC[:2] + ["the EnumMachine adapters translate variants to indices with a generated `match` (independent of the macro's conversions)"]
+    eds = sets.enum_set(tier)
+    ws, ok, dt, diag = B.build_enum_set(f"enum-{tier}", eds, prof)
+    chk.extra.setdefault("build_s", {})[f"enum-{tier}:{prof}"] = round(dt, 1)
+    if not ok:
+        errs = [l for l in diag.splitlines() if 'error' in l][:8]
+        key = "enum set: accepted-by-model bitenum declarations or their conversions do not compile"
+        chk.add_violation(key, "compile", key + "\n  " + "\n  ".join(errs), {"engine": "build", "diagnostics": diag[-6000:]})
+        return chk.finish()
+    chk.programs += len(eds)
+    rep = B.run(ws, prof, 'enum', ['--full-n', 16 if tier == 'quick' else 24], out_name=f"report-C07-{prof}.json")
+    chk.add_report(rep, f"enum-{tier}:{prof}")
+    chk.bounds.append("N<=3: every non-empty discriminant set in several declaration orders (all permutations for N<=2) x every accepted exhaustive form (=, :, omitted, conditional, conditional with cfg(any()) variants); "
+                      "N=4: " + ("sizes <=2 and >=14" if tier == 'quick' else "all 65535 sets") + "; N 5..8: exhaustive (3 orders), full-1, singletons, {0,max}; every N in 9..=64: {max}, {0,max}, {0,1,2^(N-1),max}; "
+                      "raw values: all 2^N for N<=" + ("16" if tier == 'quick' else "24") + ", boundary alphabet (disc +-1, 2^k, 2^k-1, walking bits) above")
+    if rep['machines'] != len(eds):
+        core.vacuous("enum machines missing")
+    return chk.finish()
+
+
+PROPS['C07'] = c07
+
+
+def c06(tier):
+    chk = core.Check('C06', tier)
+    prof = profile_for(tier)
+    chk.assumptions = ASSUME_REGMC[:3]
+    structs = sets.consts_set(tier)
+    ws = build_set(chk, f"consts-{tier}", structs, prof)
+    if ws is None:
+        return chk.finish()
+    rep = B.run(ws, prof, 'consts', ['--full-n', 16 if tier == 'quick' else 24], out_name=f"report-C06-{prof}.json")
+    chk.add_report(rep, f"consts-{tier}:{prof}")
+    chk.bounds.append("every base u1..u128 x default forms {none, literal, named constant} x {=, :} x default values {0, 1, all-ones, 0xAA.., bits no field covers, top bit, nibble ramp}; "
+                      "raw round trip over all 2^N values for N<=" + ("16" if tier == 'quick' else "24") + ", A(N) above; size_of/align_of vs smallest native integer; Copy by a compile-time bound")
+    if tier == 'thorough':
+        # all 2^32 raw values of the u32 / u31 / u25 bases
+        s32 = [Struct(n, [Field([(0, 1)], 'b', family='CONST')], family='CONST') for n in (25, 31, 32)]
+        ws2 = build_set(chk, "consts32", s32, 'fast')
+        if ws2:
+            rep = B.run(ws2, 'fast', 'consts', ['--full-n', 32], out_name="report-C06-32.json")
+            chk.add_report(rep, "consts32:fast")
+            chk.bounds.append("all 2^N raw values for the u25, u31, u32 bases")
+    return chk.finish()
+
+
+PROPS['C06'] = c06
+
+
+def c08(tier):
+    chk = core.Check('C08', tier)
+    prof = profile_for(tier)
+    chk.assumptions = ASSUME_REGMC + ["enum values are translated by generated `match` expressions; nested bitfields through their own new_with_raw_value/raw_value (C06's subject)"]
+    fw = 8 if tier == 'quick' else 16
+    sweep_check(chk, f"custom-{tier}", sets.custom_set(tier), 'all', prof, full_w=fw, oob=True)
+    chk.bounds.append("field kinds: exhaustive enums (w<=" + ("4" if tier == 'quick' else "8") + "), Option<non-exhaustive enum> for w in {1..8,9,16,17,32,33,63,64}, nested bitfields for w in {1,3,4,8,12,16,24,32,64,100,128}; "
+                      "placements: scalar at lo in {0,1,N-w} (incl. full-width), arrays (stride w, w+1), split over two ranges in both orders, multi-range arrays; "
+                      "bases: every N<=16 with all 2^N states, " + ("BWq" if tier == 'quick' else "every N in 17..128") + " with A(N); written values: every variant / FULLV or AV inner raw values")
+    return chk.finish()
+
+
+PROPS['C08'] = c08
+
+
+def c16(tier):
+    chk = core.Check('C16', tier)
+    chk.assumptions = ASSUME_REGMC + ["'any optimisation level' is covered as the pair {opt-level 0 + overflow checks + debug assertions, opt-level 3 without}"]
+    fw = 8
+    t = tier
+    plan = [
+        (f"contig-{t}", sets.contig_set, dict(ops='all', oob=False)),
+        (f"arr-{t}", sets.arr_set, dict(ops='all', oob=True)),
+        (f"nc-{t}", sets.nc_set, dict(ops='all', oob=True)),
+        (f"signed-{t}", sets.signed_set, dict(ops='all', oob=False)),
+        (f"custom-{t}", sets.custom_set, dict(ops='all', oob=True)),
+    ]
+    for wsname, mk, kw in plan:
+        reps = {}
+        for prof in ('checked', 'fast'):
+            rep = sweep_check(chk, wsname, mk(t), kw['ops'], prof, full_w=fw, full_n=16, oob=kw['oob'], label=f"{wsname}:{prof}")
+            if rep is None:
+                break
+            reps[prof] = rep
+        if len(reps) == 2:
+            a, b = reps['checked']['digests'], reps['fast']['digests']
+            if set(a) != set(b):
+                raise B.MachineryError("digest tables of the two profiles cover different machines")
+            chk.validated += len(a)
+            diff = [m for m in a if a[m] != b[m]]
+            chk.extra.setdefault("digest_pairs_compared", 0)
+            chk.extra["digest_pairs_compared"] += len(a)
+            heads = {ms['name']: ms['head'] for ms in json.load(open(os.path.join(B.WORK, wsname, "spec.json")))['machines']}
+            for m in diff[:5]:
+                key = f"profile divergence: {heads.get(m, m)}"
+                chk.add_violation(key, "profile_divergence", f"{key}: observation digests differ between profiles checked ({a[m]}) and fast ({b[m]})",
+                                  {"engine": "digest", "machine": m, "head": heads.get(m), "checked": a[m], "fast": b[m]})
+    # enums and constants in both profiles
+    eds = sets.enum_set(t)
+    for prof in ('checked', 'fast'):
+        ws, ok, dt, diag = B.build_enum_set(f"enum-{t}", eds, prof)
+        if ok:
+            rep = B.run(ws, prof, 'enum', ['--full-n', 16], out_name=f"report-C16-enum-{prof}.json")
+            chk.add_report(rep, f"enum-{t}:{prof}")
+    chk.bounds.append("the machine sets of C01-C05, C07, C08 built twice (checked = opt 0 + overflow checks + debug assertions; fast = opt 3 without) and swept identically; "
+                      "no Panicked observation except out-of-range indices; per-machine digests over the ordered observation stream equal across profiles")
+    return chk.finish()
+
+
+PROPS['C16'] = c16
